@@ -49,6 +49,16 @@ CLAIMS['C10'] = dict(
          "returns NULL. Equality with a reference string and agreement of find/compare with the C library are NOT decided.",
     technique="no-wrap obligations by dominating-facts entailment over inlined LLVM IR; dominance / post-dominance rules; both template instantiations")
 
+CLAIMS['C14'] = dict(
+    text="Decides, for every path of the code as written: (A1) whenever an array entry point re-targets the object's buffer pointer it "
+         "also writes offset and length, and a pointer that ends NULL ends with off = len = 0 (path-sensitive, with a store/load model "
+         "of the guarded pointer slot); (A2) the allocation size cannot wrap; (A3) slice arithmetic cannot wrap and the new off/len are "
+         "stored only under beg <= end and a wrap-free off + end <= nm, rejected ranges abort; (A4) at() returns only under i < len, "
+         "aborts only under len <= i, and addresses element off + i; (A5) release hands back only an external, uniquely referenced "
+         "buffer and resets the object there, otherwise reports NULL and changes nothing; (A6) array code never frees/allocates "
+         "directly and shares exactly when the two objects differ. History-level 'released exactly once' rests on C05.",
+    technique="path-sensitive typestate with a store/load model + no-wrap obligations + dominating facts over inlined LLVM IR")
+
 NA = {
     'C02': "inductive colour/black-height invariant over an unbounded pointer structure; needs shape/separation reasoning that no static analyser available here provides (DESIGN.md 4/C02)",
     'C07': "heap order and completeness are inductive invariants tying pointer shape to size arithmetic; not expressible as dataflow/typestate/effects (DESIGN.md 4/C07)",
